@@ -27,6 +27,9 @@ type Scenario struct {
 	// Aftermath: what the server, which considers the key established, sends after a key exchange the client aborted at
 	// its last step: "new-session", "bad-salt", "update" ("" = nothing)
 	Aftermath string `json:"aftermath,omitempty"`
+	// ServerClockOffset: every reference server of the scenario stamps its msg_ids with a clock that many seconds ahead
+	// (beyond 2038-01-19 the id, read as a signed 64-bit number, is negative)
+	ServerClockOffset int64 `json:"server_clock_offset,omitempty"`
 	// FirstDialRefused (handshake): the server is not listening when the client connects for the first time; the
 	// application tries again on the same client object once the server is up
 	FirstDialRefused bool `json:"first_dial_refused,omitempty"`
@@ -72,6 +75,10 @@ type Resume struct {
 	Salt    int64  `json:"salt"`
 	// NoHash: the stored session carries no key id (a store that does not keep what can be derived from the key)
 	NoHash bool `json:"no_hash,omitempty"`
+	// Via: how the client is pointed at the stored session: "" = Config.AuthKeyFile; "storage" = Config.SessionStorage
+	// (a file store on the same file); "both-absent" / "both-other" = SessionStorage as before and, as well, an
+	// AuthKeyFile naming a file that does not exist / that holds another session (the documentation says it is ignored)
+	Via string `json:"via,omitempty"`
 }
 
 // CallResult is the outcome of one client call.
@@ -182,13 +189,16 @@ type Step struct {
 	Items     []AnsItem  `json:"items,omitempty"`
 	Container bool       `json:"container,omitempty"`
 	Nested    bool       `json:"nested,omitempty"` // answer: the container is itself wrapped into an outer container
-	Push      *PushSpec  `json:"push,omitempty"`
-	Salt      int64      `json:"salt,omitempty"`
-	Hold      *HoldSpec  `json:"hold,omitempty"`
-	Server    string     `json:"server,omitempty"`
-	Ms        int        `json:"ms,omitempty"`
-	Tag       int        `json:"tag,omitempty"`
-	Retry     bool       `json:"retry,omitempty"` // probe: a call that fails with an error (not a hang) while the client swaps connections is repeated
+	// ReverseWire (answer, not in a container): the answers are stamped (msg_id, seq_no) in the listed order and leave
+	// in the opposite one - a message with an older msg_id arrives after one with a newer msg_id
+	ReverseWire bool      `json:"reverse_wire,omitempty"`
+	Push        *PushSpec `json:"push,omitempty"`
+	Salt        int64     `json:"salt,omitempty"`
+	Hold        *HoldSpec `json:"hold,omitempty"`
+	Server      string    `json:"server,omitempty"`
+	Ms          int       `json:"ms,omitempty"`
+	Tag         int       `json:"tag,omitempty"`
+	Retry       bool      `json:"retry,omitempty"` // probe: a call that fails with an error (not a hang) while the client swaps connections is repeated
 }
 
 type CallSpec struct {
